@@ -280,8 +280,7 @@ func persistMergedRestField(segments []*Segment, dropsIn []*roaring.Bitmap, fiel
 		}
 
 		if !bytes.Equal(prevTerm, term) || prevTerm == nil {
-			err = prepareNewTerm(newSegDocCount, chunkMode, tfEncoder, locEncoder, fieldFreqs, fieldID, enumerator,
-				dicts, drops)
+			err = prepareNewTerm(newSegDocCount, chunkMode, tfEncoder, locEncoder, enumerator, dicts, drops)
 			if err != nil {
 				return err
 			}
@@ -301,7 +300,7 @@ func persistMergedRestField(segments []*Segment, dropsIn []*roaring.Bitmap, fiel
 		// can no longer optimize by copying, since chunk factor could have changed
 		lastDocNum, lastFreq, lastNorm, bufLoc, err = mergeTermFreqNormLocs(
 			fieldsMap, postItr, newDocNums[itrI], newRoaring,
-			tfEncoder, locEncoder, bufLoc, fieldDocTracking)
+			tfEncoder, locEncoder, bufLoc, fieldDocTracking, fieldFreqs, fieldID)
 
 		if err != nil {
 			return err
@@ -427,8 +426,7 @@ func buildMergedDocVals(newSegDocCount uint64, w *countHashWriter, closeCh chan 
 }
 
 func prepareNewTerm(newSegDocCount uint64, chunkMode uint32, tfEncoder, locEncoder *chunkedIntCoder,
-	fieldFreqs map[uint16]uint64, fieldID int, enumerator *enumerator, dicts []*Dictionary,
-	drops []*roaring.Bitmap) error {
+	enumerator *enumerator, dicts []*Dictionary, drops []*roaring.Bitmap) error {
 	var err error
 
 	// compute cardinality of field-term in new seg
@@ -441,7 +439,6 @@ func prepareNewTerm(newSegDocCount uint64, chunkMode uint32, tfEncoder, locEncod
 			return err
 		}
 		newCard += pl.Count()
-		fieldFreqs[uint16(fieldID)] += newCard
 	}
 	// compute correct chunk size with this
 	var chunkSize uint64
@@ -557,7 +554,8 @@ const numUintsLocation = 4
 
 func mergeTermFreqNormLocs(fieldsMap map[string]uint16, postItr *PostingsIterator,
 	newDocNums []uint64, newRoaring *roaring.Bitmap,
-	tfEncoder, locEncoder *chunkedIntCoder, bufLoc []uint64, docTracking *roaring.Bitmap) (
+	tfEncoder, locEncoder *chunkedIntCoder, bufLoc []uint64, docTracking *roaring.Bitmap,
+	fieldFreqs map[uint16]uint64, fieldID int) (
 	lastDocNum, lastFreq, lastNorm uint64, bufLocOut []uint64, err error) {
 	next, err := postItr.Next()
 	for next != nil && err == nil {
@@ -571,6 +569,9 @@ func mergeTermFreqNormLocs(fieldsMap map[string]uint16, postItr *PostingsIterato
 
 		nextFreq := next.Frequency()
 		nextNorm := uint64(math.Float32bits(float32(next.Norm())))
+
+		// the field's total term frequency is the sum over its surviving postings
+		fieldFreqs[uint16(fieldID)] += uint64(nextFreq)
 
 		locs := next.Locations()
 
